@@ -124,13 +124,13 @@ def make_connector(host, port, timeout, sends):
 def observe(cfg, r, sts, val):
     st, ext = (sts, []) if isinstance(sts, int) else (sts[0], list(sts[1]))
     if val is True:
-        return {"st": st, "ext": ext, "vals": [], "ok": True, "bytes": []}
+        return {"st": st, "ext": ext, "vals": [], "ok": True, "bytes": [], "exact5": False}
     if val is None or val is False:
-        return {"st": st, "ext": ext, "vals": [], "ok": False, "bytes": []}
+        return {"st": st, "ext": ext, "vals": [], "ok": False, "bytes": [], "exact5": False}
     if r["svc"] == "gas":
-        return {"st": st, "ext": ext, "vals": [], "ok": True, "bytes": [int(v) for v in val]}      # the attribute's octets
+        return {"st": st, "ext": ext, "vals": [], "ok": True, "bytes": [int(v) for v in val], "exact5": False}      # the attribute's octets
     t = tagtype(cfg, r)
-    return {"st": st, "ext": ext, "vals": [sim.enc_elem(t, v) for v in val], "ok": True, "bytes": []}
+    return {"st": st, "ext": ext, "vals": [sim.enc_elem(t, v) for v in val], "ok": True, "bytes": [], "exact5": False}
 
 
 def run_client(job):
